@@ -301,6 +301,83 @@ def evaluate(ctx, cs, label):
             if Fm.shape != M.shape or np.max(np.abs(Fm - M), initial=0) > 1e-12 * (1 + np.max(np.abs(M), initial=0)):
                 # decide S vs K by the independent restatement inside fermion_checks (already reported there if it failed)
                 ctx.k_mismatch(f"{label}: majorana_to_fermion_ham differs from the model's block formula", c)
+    if label.startswith("K("):
+        # extraction cross-check: a sample of the driver's answers re-derived inside Coq
+        coq_crosscheck(ctx, list(zip(lines, outs)) + [(s[3], o) for s, o in zip(second, outs2)])
+
+
+# ------------------------------------------------------------------ extraction cross-check (DESIGN 1.3)
+XCHECK_MAX_V = 40
+
+
+def coq_crosscheck(ctx, sent):
+    """sent: (line sent to the c07 driver, its answer) for every command of the K phase.  A small random sample per command
+    (ham / permute / bisect / fermion, V <= 40) is re-derived INSIDE Coq: the line is read back into Gallina literals
+    (nat decimal, Z hex, as the driver's grammar says) and every answer line must be what vm_compute gives for the model
+    function the driver evaluates."""
+    import xcheck as X
+    quick = ctx.tier == "quick"
+    rng = np.random.default_rng([ctx.seed, 7, 99])
+    pools = {}
+    for line, o in sent:
+        t = line.split()
+        if "error" not in o and int(t[1]) <= XCHECK_MAX_V:
+            pools.setdefault(t[0], []).append((t, o))
+    quota = {"ham": 8 if quick else 60, "permute": 3 if quick else 20, "bisect": 4 if quick else 30, "fermion": 3 if quick else 20}
+    nl, bl = X.natlist, lambda o, k: X.boolean(o[k] == ["1"])
+    edges_lit = lambda es: X.lst(X.natpair, es)
+    body = []
+    g = lambda lhs, rhs: body.append(X.goal(lhs, rhs))
+    n_cases = {}
+    for kind in ("ham", "permute", "bisect", "fermion"):
+        pool = pools.get(kind, [])
+        idx = sorted(rng.choice(len(pool), size=min(len(pool), quota[kind]), replace=False).tolist()) if pool else []
+        n_cases[kind] = len(idx)
+        for i in idx:
+            t, o = pool[i]
+            c = Cursor(t[1:])
+            V = c.int()
+            if kind == "fermion":
+                A = c.list(lambda: c.list(c.z))
+                cur = Cursor(o["F"])
+                F = cur.list(lambda: cur.list(lambda: (cur.z(), cur.z())))
+                g(f"fermion4 {X.nat(V)} {X.lst(X.zlist, A)}", X.lst(lambda r: X.lst(X.zpair, r), F))
+                continue
+            es = c.list(lambda: (c.int(), c.int()))
+            ES = edges_lit(es)
+            if kind == "ham":
+                col = c.list(c.int) if c.int() == 1 else None
+                u, J = c.list(c.z), c.list(c.z)
+                COL = "None" if col is None else f"(Some {nl(col)})"
+                g(f"(wf_edges {X.nat(V)} {ES}, no_loops {ES})", f"({bl(o, 'wf')}, {bl(o, 'noloops')})")
+                A4 = X.lst(X.zlist, parse_zmat(o["A4"]))
+                g(f"majorana4 {X.nat(V)} {ES} {COL} {X.zlist(u)} {X.zlist(J)}", A4)
+                if o["bondsum_equal"] == ["1"]:      # the driver found bond_sum = A4 entry by entry (V <= 24)
+                    g(f"map (fun r => map (bond_sum {ES} (hoppings {X.nat(len(es))} {COL} {X.zlist(u)} {X.zlist(J)}) r) (seq 0 {X.nat(V)})) (seq 0 {X.nat(V)})", A4)
+            elif kind == "permute":
+                ordering = c.list(c.int)
+                cur = Cursor(o["edges"]); pe = cur.list(lambda: (cur.int(), cur.int()))
+                cur = Cursor(o["inv"]); inv_ = cur.list(cur.int)
+                g(f"(is_perm_of_range {X.nat(V)} {nl(ordering)}, inverse_ordering {X.nat(V)} {nl(ordering)})", f"({bl(o, 'isperm')}, {nl(inv_)})")
+                g(f"permute_edges {X.nat(V)} {nl(ordering)} {ES}", edges_lit(pe))
+            else:
+                sol = c.list(c.int)
+                along = c.int()
+                ordering = c.list(c.int)
+                cur = Cursor(o["labels"]); lab = cur.list(cur.int)
+                cur = Cursor(o["edges"]); pe = cur.list(lambda: (cur.int(), cur.int()))
+                SOL, AL, ORD = nl(sol), X.nat(along), nl(ordering)
+                g(f"sublattice_labels {X.nat(V)} {ES} {SOL} {AL}", nl(lab))
+                g(f"(is_argsort (sublattice_labels {X.nat(V)} {ES} {SOL} {AL}) {ORD}, perfect_matching {X.nat(V)} (dimer_edges {ES} {SOL} {AL}))",
+                  f"({bl(o, 'argsort')}, {bl(o, 'matching')})")
+                g(f"permute_edges {X.nat(V)} {ORD} {ES}", edges_lit(pe))
+                g(f"opposite_halves {X.nat(V)} (dimer_edges (permute_edges {X.nat(V)} {ORD} {ES}) {SOL} {AL})", bl(o, "halves"))
+            if not c.done():
+                raise RuntimeError(f"extraction cross-check: could not read back the whole {kind} line")
+    res = ctx.res
+    res.extra["extraction_crosscheck_goals_vm_compute"] = X.compile_goals("c07", "Model.Ham", body, "c07")
+    res.extra["extraction_crosscheck_cases"] = n_cases
+    res.extra["extraction_crosscheck_wall_s"] = X.LAST_WALL
 
 
 def fermion_checks(ctx, c, H, V, second, spec_chk, viol, tag):
